@@ -53,3 +53,14 @@ Example C16_example :
   map (fun k => length (members k [(Some 1, Some 0%Z); (Some 2, Some 1%Z); (None, Some 1%Z); (Some 3, Some 1%Z); (Some 9, None)])) [0%Z; 1%Z; 2%Z]
   = [1; 2; 0]%nat.
 Proof. reflexivity. Qed.
+
+(** Non-vacuity of the isolation and range theorems: two rasters which differ outside zone 1 only, and a
+    zone whose pixels lie in [2, 3]. *)
+Example C16_isolation_example :
+  let px  := [(Some 1, Some 0%Z); (Some 2, Some 1%Z); (None, Some 1%Z); (Some 3, Some 1%Z)] in
+  let px' := [(Some 7, Some 0%Z); (Some 2, Some 1%Z); (None, Some 1%Z); (Some 3, Some 1%Z); (Some 5, None)] in
+  filter (in_zone 1) px = filter (in_zone 1) px' /\ px <> px' /\
+  Forall (fun x => 2 <= x <= 3) (members 1%Z px).
+Proof.
+  cbn. split; [reflexivity|]. split; [intros H; discriminate H|]. repeat constructor; lra.
+Qed.
